@@ -661,6 +661,16 @@ impl Calendar {
             AnyCalendarKind::Japanese if *era_alias == tinystr!(19, "taisho") => {
                 Some(era::TAISHO_ERA)
             }
+            // NOTE: the extended Japanese calendar has some 240 eras; the calendrical code
+            // decides whether it knows the era.
+            AnyCalendarKind::JapaneseExtended => {
+                TinyAsciiStr::<16>::try_from_utf8(era_alias.as_bytes())
+                    .ok()
+                    .map(|name| EraInfo {
+                        name,
+                        range: 1..=i32::MAX,
+                    })
+            }
             AnyCalendarKind::Persian if era::PERSIAN_ERA_IDENTIFIERS.contains(era_alias) => {
                 Some(era::PERSIAN_ERA)
             }
